@@ -26,6 +26,10 @@ static void vx_num_push(char c, char cur) { if (c != cur && !(c == '0')) vx_push
 #define VX_E_GIVE_UP(i) do { __CPROVER_assert(spec_toon_numlike_step(vx_q, vx_tok[i]) == TM_REJ, "[C18] is_number gives up only at a character where no number look-alike continues"); vx_q = TM_REJ; } while (0)
 /*@FUNC scan_number_token@*/
 /*@FUNC is_number@*/
+/* is_unquoted_safe: std::isspace in the "C" locale; whether the string equals one of the three literals (string comparison, trusted); watched position */
+static bool vx_isspace(char c) { return c == ' ' || c == '\t' || c == '\n' || c == '\v' || c == '\f' || c == '\r'; }
+static bool vx_is_literal; static size_t vx_w;
+/*@FUNC is_unquoted_safe@*/
 #ifdef VX_CBMC
 static void setup(void)
 {
@@ -38,5 +42,6 @@ static void setup(void)
     vx_q = TM_START; vx_qp = TP_START; vx_consumed = 0; vx_ndig = 0; vx_nfrac = 0; vx_seen_dot = false; vx_gave_up = false; vx_num_len = 0; vx_exp_len = 0; vx_push_bad = false; vx_nz_i = 0; vx_nz_c = 'x';
 }
 void h_scan_number_token(void) { setup(); scan_number_token(); }
+void h_is_unquoted_safe(void) { setup(); vx_is_literal = nondet_bool(); vx_w = nondet_size(); __CPROVER_assume(vx_w < vx_n); bool r = is_unquoted_safe((char)nondet_u8()); (void)r; }
 void h_is_number(void) { setup(); bool r = is_number(); (void)r; }
 #endif
